@@ -1,5 +1,6 @@
 import Driver.Loop
-import Driver.Ops.Chain
+import Driver.Ops.ChainAddGen
 
-/-- line-protocol driver of the model group `Chain` (see Driver/Loop.lean) -/
-def main : IO Unit := Driver.runWith Driver.Ops.Chain.handle {}
+/-- line-protocol driver of the chain model, write side: `add` / `crash` are cross-checked against the regenerated
+    Chains.Add (see Driver/Loop.lean, Driver/Ops/ChainCore.lean) -/
+def main : IO Unit := Driver.runWith (Driver.Ops.Chain.handleWith Driver.Ops.Chain.addChecks) {}
